@@ -819,6 +819,40 @@ private:"""),
     convex(convexity::yes);"""),
     dict(property="C20", name="histogram-ctor-does-not-sort-thresholds", rule="R-C20-5", file="include/nano/core/histogram.h", tu="src/core/histogram.cpp",
          old="        std::sort(std::begin(m_thresholds), std::end(m_thresholds));\n\n        update(begin, end);", new="        update(begin, end);"),
+    # ---- C18
+    dict(property="C18", name="tune-warm-start-from-running-batch", rule="R-C18-4", file="src/machine/tune.cpp",
+         old="const auto closest_trial = result.closest_trial(params, old_trials);", new="const auto closest_trial = result.closest_trial(params, old_trials + trial);"),
+    dict(property="C18", name="tune-slots-allocated-after-tasks", rule="R-C18-4", file="src/machine/tune.cpp",
+         old="""        result.add(new_params);
+
+        const auto thread_callback""", new="""        const auto thread_callback"""),
+    dict(property="C18", name="solver-mutable-call-counter", rule="R-C18-1", file="include/nano/solver.h", tu="src/solver.cpp",
+         old="    solver_type m_type{solver_type::line_search}; ///<", new="    solver_type m_type{solver_type::line_search}; ///<\n    mutable tensor_size_t m_minimize_calls{0};"),
+    dict(property="C18", name="loss-mutable-scratch-buffer", rule="R-C18-1", file="include/nano/loss.h", tu="src/loss.cpp",
+         old="    bool m_smooth{false}; ///< whether the loss function is smooth (otherwise subgradients should be used)",
+         new="    bool m_smooth{false}; ///< whether the loss function is smooth (otherwise subgradients should be used)\n    mutable tensor4d_t m_scratch;"),
+    dict(property="C18", name="solver-configures-shared-prototype", rule="R-C18-1", file="src/solver.cpp",
+         old="""    lsearch0->parameter("lsearch0::epsilon")   = parameter("solver::epsilon").value<scalar_t>();""",
+         new="""    m_lsearch0->parameter("lsearch0::epsilon") = parameter("solver::epsilon").value<scalar_t>();"""),
+    dict(property="C18", name="solver-hands-out-prototype", rule="R-C18-5", file="src/solver.cpp",
+         old="""    auto lsearchk = m_lsearchk->clone();""", new="""    auto lsearchk = m_lsearchk->clone();
+    m_lsearchk->parameter("lsearchk::tolerance") = parameter("solver::tolerance").value_pair<scalar_t>();"""),
+    dict(property="C18", name="solver-static-call-counter", rule="R-C18-2", file="src/solver.cpp",
+         old="    function.clear_statistics();\n\n    return do_minimize(function, x0, logger);",
+         new="    function.clear_statistics();\n    static tensor_size_t calls = 0;\n    ++calls;\n\n    return do_minimize(function, x0, logger);"),
+    dict(property="C18", name="gd-static-line-search", rule="R-C18-2", file="src/solver/gd.cpp",
+         old="    auto lsearch = make_lsearch();", new="    static auto lsearch = make_lsearch();"),
+    dict(property="C18", name="gboost-evaluate-writes-whole-values", rule="R-C18-3", file="src/gboost/util.cpp",
+         old="            loss.value(targets, outputs.slice(range), values.tensor(1).slice(range));", new="            loss.value(targets, outputs.slice(range), values.tensor(1).slice(0, range.size()));"),
+    dict(property="C18", name="linear-function-shared-accumulator", rule="R-C18-3", file="src/linear/function.cpp",
+         old="auto& accumulator = m_accumulators[tnum];", new="auto& accumulator = m_accumulators[0];"),
+    dict(property="C18", name="select-iterator-shared-buffer", rule="R-C18-3", file="src/dataset/iterator.cpp",
+         old="                callback(ifeature, tnum, dataset().select(samples, ifeature, m_buffers[tnum].m_scalar));", new="                callback(ifeature, tnum, dataset().select(samples, ifeature, m_buffers[0].m_scalar));"),
+    dict(property="C18", name="solver-const-cast-this", rule="R-C18-1", file="src/solver.cpp",
+         old="    function.clear_statistics();\n\n    return do_minimize(function, x0, logger);",
+         new="    function.clear_statistics();\n    const_cast<solver_t*>(this)->m_type = m_type;\n\n    return do_minimize(function, x0, logger);"),
+    dict(property="C18", name="factory-populated-outside-call-once", rule="R-C18-2", file="src/loss.cpp",
+         old="    static std::once_flag flag;\n    std::call_once(flag, op);", new="    op();"),
     # ---- C12
     dict(property="C12", name="kfold-last-fold-drops-remainder", rule="R-C12-1", file="src/splitter/kfold.cpp",
          old="const auto valid_end   = (fold + 1 < folds) ? (valid_begin + chunk) : samples.size();", new="const auto valid_end   = valid_begin + chunk;"),
@@ -1105,4 +1139,12 @@ BENIGN = [
         std::sort(std::begin(train), std::end(train));"""),
     dict(property="C12", name="random-valid-size-inlined", file="src/splitter/random.cpp",
          old="valid.vector() = samples.vector().segment(train_size, valid_size);", new="valid.vector() = samples.vector().segment(train_size, samples.size() - train_size);"),
+    dict(property="C18", name="tune-index-vars-renamed-order", file="src/machine/tune.cpp",
+         old="""            const auto fold  = index % folds;
+            const auto trial = index / folds;""", new="""            const auto trial = index / folds;
+            const auto fold  = index % folds;"""),
+    dict(property="C18", name="function-new-mutable-buffer", file="include/nano/function.h",
+         old="    mutable tensor_size_t m_gcalls{0};", new="    mutable tensor_size_t m_gcalls{0};\n    mutable tensor_size_t m_hcalls{0};"),
+    dict(property="C18", name="gboost-evaluate-range-hoisted", file="src/gboost/util.cpp",
+         old="            loss.value(targets, outputs.slice(range), values.tensor(1).slice(range));", new="            auto vslice = values.tensor(1).slice(range);\n            loss.value(targets, outputs.slice(range), vslice);"),
 ]
